@@ -79,7 +79,7 @@ def run_case(case):
     from epydemic import Dynamics, SynchronousDynamics
     g = networkx.path_graph(3)
     orc = Oracle(seed=case.get('seed', 0), script=case.get('script'))
-    rec, rc, exc = kscript.run_table(case['table'], case['dynamics'], g, orc, prerun=bool(case.get('prerun')))
+    rec, rc, exc = kscript.run_table(case['table'], case['dynamics'], g, orc, prerun=case.get('prerun') or False)
     md = (rc or {}).get(epyc.Experiment.METADATA, {}) if rc else {}
     obs = {
         'exception': exc,
